@@ -30,7 +30,7 @@ var umodDir string
 // initRuntime prepares what every real run needs: the source module umod and a harmless default
 // sink for REPL echoes (the stock vm.PrintExpr writes to the process's stdout).
 func initRuntime(scratch string) {
-	umodDir = filepath.Join(scratch, "umod")
+	umodDir = filepath.Join(scratch, "umoddir")
 	os.MkdirAll(umodDir, 0o755)
 	os.WriteFile(filepath.Join(umodDir, "umod.py"), []byte("print('body')\n"), 0o644)
 	vm.PrintExpr = func(string) {}
@@ -61,12 +61,14 @@ func render(o OpT, val string, n int) string {
 		return fmt.Sprintf("import %s\n%s.mattr%d = '%s'\n", o.A, o.A, n, val)
 	case "GetModAttr":
 		return fmt.Sprintf("import %s\nprint(%s.mattr%d)\n", o.A, o.A, n)
-	case "AppendSys":
-		return fmt.Sprintf("import sys\nsys.%s.append('%s')\n", o.A, val)
-	case "SetSys":
-		return fmt.Sprintf("import sys\nsys.%s = [sys.%s[0], '%s']\n", o.A, o.A, val)
+	// the entries this harness writes to sys.path / sys.argv carry the prefix mk: ; whatever else the
+	// configuration put there (program name, search paths, the process's own arguments) is left alone
+	case "AppendSys": // in-place mutation
+		return fmt.Sprintf("import sys\nsys.%s.append('mk:%s')\n", o.A, val)
+	case "SetSys": // rebinding to a new list
+		return fmt.Sprintf("import sys\nsys.%s = [x for x in sys.%s if x[:3] != 'mk:'] + ['mk:%s']\n", o.A, o.A, val)
 	case "ReadSys":
-		return fmt.Sprintf("import sys\nprint('|'.join(sys.%s[1:]))\n", o.A)
+		return fmt.Sprintf("import sys\nprint('|'.join([x for x in sys.%s if x[:3] == 'mk:']))\n", o.A)
 	case "RebindBuiltin":
 		return fmt.Sprintf("import builtins\nbuiltins.len = lambda x: '%s'\n", val)
 	case "CallBuiltin":
@@ -99,6 +101,7 @@ type cx struct {
 	script []int
 	tag    string // "b<n>." prefix of every value of this case
 	n      int
+	config string
 
 	mu  sync.Mutex
 	obs []realEntry
@@ -120,19 +123,49 @@ func (t termUI) Print(s string) {
 	t.c.mu.Unlock()
 }
 
-func newCx(name string, script []int, n int, free bool) *cx {
-	c := &cx{name: name, script: script, n: n, tag: fmt.Sprintf("b%d.", n), free: free,
+func newCx(name string, script []int, n int, free bool, config string, lazy bool) *cx {
+	c := &cx{name: name, script: script, n: n, tag: fmt.Sprintf("b%d.", n), free: free, config: config,
 		adv: make(chan struct{}), ack: make(chan struct{}, 1)}
-	c.pc = pyrun.New(umodDir)
-	c.rp = repl.New(c.pc.Ctx)
-	c.rp.SetUI(termUI{c})
-	if !free {
-		gated.Store(c.pc.Ctx, c)
+	if !lazy {
+		c.create()
 	}
 	return c
 }
 
+// create makes the real context in the configuration class of the case.
+func (c *cx) create() {
+	var opts py.ContextOpts
+	switch c.config {
+	case "zero":
+		opts = py.ContextOpts{}
+	case "default":
+		opts = py.DefaultContextOpts()
+	default:
+		opts = py.ContextOpts{SysArgs: []string{"prog"}, SysPaths: []string{umodDir}}
+	}
+	ctx := py.NewContext(opts)
+	out := &pyrun.Writer{}
+	sys := ctx.Store().MustGetModule("sys")
+	sys.Globals["stdout"] = out
+	sys.Globals["stderr"] = out
+	if c.config != "explicit" {
+		// the source module umod must be importable in every configuration
+		if l, ok := sys.Globals["path"].(*py.List); ok {
+			l.Append(py.String(umodDir))
+		}
+	}
+	c.pc = &pyrun.Ctx{Ctx: ctx, Out: out}
+	c.rp = repl.New(ctx)
+	c.rp.SetUI(termUI{c})
+	if !c.free {
+		gated.Store(ctx, c)
+	}
+}
+
 func (c *cx) close() {
+	if c.pc == nil {
+		return
+	}
 	gated.Delete(c.pc.Ctx)
 	c.pc.Close()
 }
@@ -146,6 +179,9 @@ func (c *cx) yield() {
 }
 
 func (c *cx) runOp(i int) {
+	if c.pc == nil {
+		c.create()
+	}
 	o := opList[c.script[i]-1]
 	val := c.tag + c.name + ":" + fmt.Sprint(i+1)
 	src := render(o, val, c.n)
@@ -235,7 +271,7 @@ func (c *cx) observed() []realEntry {
 	out := make([]realEntry, len(c.obs))
 	copy(out, c.obs)
 	for i := range out {
-		out[i].V = strings.ReplaceAll(out[i].V, c.tag, "")
+		out[i].V = strings.ReplaceAll(strings.ReplaceAll(out[i].V, "mk:", ""), c.tag, "")
 	}
 	return out
 }
@@ -369,7 +405,7 @@ func replayCase(c *Case, n int, onlyActive bool) *divergence {
 	cxs := map[string]*cx{}
 	var wg sync.WaitGroup
 	for _, nm := range names {
-		cxs[nm] = newCx(nm, c.Script[nm], n, false)
+		cxs[nm] = newCx(nm, c.Script[nm], n, false, c.Config, c.Lazy)
 		wg.Add(1)
 		go cxs[nm].loop(&wg)
 	}
@@ -437,6 +473,23 @@ for k in sorted(d.keys()):
 f = lambda x: x + total
 print(sum(acc), total, f(1), len(acc))
 `
+
+// soloWorker: one single-operation case in this fresh process; prints "match" or "diverge".
+func soloWorker(jobFile string) {
+	b, err := os.ReadFile(jobFile)
+	var job stressJob
+	if err != nil || json.Unmarshal(b, &job) != nil || len(job.Cases) != 1 {
+		fmt.Println("error")
+		return
+	}
+	opList, meta = job.OpList, job.Meta
+	initRuntime(job.Scratch)
+	if replayCase(job.Cases[0], 1, true) == nil {
+		fmt.Println("match")
+	} else {
+		fmt.Println("diverge")
+	}
+}
 
 func stressWorker(jobFile string) {
 	b, err := os.ReadFile(jobFile)
@@ -552,7 +605,7 @@ func stressWorker(jobFile string) {
 				var run sync.WaitGroup
 				start := make(chan struct{})
 				for _, nm := range names {
-					x := newCx(nm, c.Script[nm], n, true)
+					x := newCx(nm, c.Script[nm], n, true, c.Config, c.Lazy)
 					cxs[nm] = x
 					run.Add(1)
 					go func() {
